@@ -258,3 +258,21 @@ def drift_of(prior, n, d):
 
 def loguniform(rng, lo, hi):
     return math.exp(rng.uniform(math.log(lo), math.log(hi)))
+
+
+def bounded_while(budget=4000):
+    """A jit-compatible while_loop with a logical iteration budget (a diverging adaptive run must not hang a check).
+    Callers detect an exhausted budget by the final time not being reached."""
+    import jax
+    import jax.numpy as jnp
+
+    def loop(cond, body, init):
+        out, _ = jax.lax.while_loop(lambda s: jnp.logical_and(cond(s[0]), s[1] < budget), lambda s: (body(s[0]), s[1] + 1), (init, 0))
+        return out
+
+    return loop
+
+
+def adaptive_reached_end(sol, t_end, eps=1e-6):
+    t = np.asarray(sol.t, float)
+    return bool(np.all(np.isfinite(t)) and abs(float(t[-1] if t.ndim else t) - float(t_end)) <= eps)
